@@ -109,3 +109,161 @@ pub fn offset_secs() -> BoxedStrategy<i32> {
 pub fn mk_ts(ns: i128) -> jiff::Timestamp {
     jiff::Timestamp::from_nanosecond(ns).expect("generator produced invalid timestamp")
 }
+
+// --- spans -----------------------------------------------------------------
+
+pub const SPAN_LIMITS: [i64; 10] = [
+    19_998,
+    239_976,
+    1_043_497,
+    7_304_484,
+    175_307_616,
+    10_518_456_960,
+    631_107_417_600,
+    631_107_417_600_000,
+    631_107_417_600_000_000,
+    i64::MAX,
+];
+
+pub const UNIT_NS: [i128; 10] = [
+    0,
+    0,
+    7 * 86_400_000_000_000,
+    86_400_000_000_000,
+    3_600_000_000_000,
+    60_000_000_000,
+    1_000_000_000,
+    1_000_000,
+    1_000,
+    1,
+];
+
+/// A span as ten magnitudes (years..nanoseconds) and one sign.
+#[derive(serde::Serialize, serde::Deserialize, Clone, Debug, PartialEq, Eq, Hash)]
+pub struct SpanSpec {
+    pub neg: bool,
+    pub u: [i64; 10],
+}
+
+impl SpanSpec {
+    pub fn zero() -> SpanSpec {
+        SpanSpec { neg: false, u: [0; 10] }
+    }
+    pub fn sign(&self) -> i128 {
+        if self.u.iter().all(|&x| x == 0) {
+            0
+        } else if self.neg {
+            -1
+        } else {
+            1
+        }
+    }
+    pub fn get(&self, i: usize) -> i128 {
+        self.sign() * self.u[i] as i128
+    }
+    pub fn to_span(&self) -> jiff::Span {
+        let s = if self.neg { -1i64 } else { 1 };
+        let v = |i: usize| s * self.u[i];
+        jiff::Span::new()
+            .try_years(v(0)).expect("years")
+            .try_months(v(1)).expect("months")
+            .try_weeks(v(2)).expect("weeks")
+            .try_days(v(3)).expect("days")
+            .try_hours(v(4)).expect("hours")
+            .try_minutes(v(5)).expect("minutes")
+            .try_seconds(v(6)).expect("seconds")
+            .try_milliseconds(v(7)).expect("ms")
+            .try_microseconds(v(8)).expect("us")
+            .try_nanoseconds(v(9)).expect("ns")
+    }
+    pub fn from_span(s: &jiff::Span) -> SpanSpec {
+        let f = [
+            s.get_years() as i64,
+            s.get_months() as i64,
+            s.get_weeks() as i64,
+            s.get_days() as i64,
+            s.get_hours() as i64,
+            s.get_minutes(),
+            s.get_seconds(),
+            s.get_milliseconds(),
+            s.get_microseconds(),
+            s.get_nanoseconds(),
+        ];
+        let neg = f.iter().any(|&x| x < 0);
+        SpanSpec { neg, u: f.map(|x| x.abs()) }
+    }
+    /// signed total of hours..nanoseconds in ns
+    pub fn time_ns(&self) -> i128 {
+        let mut t = 0i128;
+        for i in 4..10 {
+            t += self.u[i] as i128 * UNIT_NS[i];
+        }
+        self.sign() * t
+    }
+    /// signed weeks*7 + days
+    pub fn days(&self) -> i128 {
+        self.sign() * (self.u[2] as i128 * 7 + self.u[3] as i128)
+    }
+    /// signed years*12 + months
+    pub fn months(&self) -> i128 {
+        self.sign() * (self.u[0] as i128 * 12 + self.u[1] as i128)
+    }
+    pub fn has_calendar(&self) -> bool {
+        self.u[..4].iter().any(|&x| x != 0)
+    }
+    pub fn negated(&self) -> SpanSpec {
+        SpanSpec { neg: !self.neg, u: self.u }
+    }
+}
+
+fn unit_mag(i: usize) -> BoxedStrategy<i64> {
+    let lim = SPAN_LIMITS[i];
+    prop_oneof![
+        6 => Just(0i64),
+        1 => Just(lim),
+        1 => Just(lim - 1),
+        1 => Just(1i64),
+        3 => 0i64..=70.min(lim),
+        2 => 0i64..=1500.min(lim),
+        2 => 0i64..=lim,
+        1 => (0u32..62).prop_map(move |k| ((1i64 << k) + 1).min(lim)),
+    ]
+    .boxed()
+}
+
+/// Mask classes: which units may be non-zero.
+pub fn span_spec_masked(mask: [bool; 10]) -> BoxedStrategy<SpanSpec> {
+    let units: Vec<BoxedStrategy<i64>> = (0..10).map(|i| if mask[i] { unit_mag(i) } else { Just(0i64).boxed() }).collect();
+    (any::<bool>(), units)
+        .prop_map(|(neg, v)| {
+            let mut u = [0i64; 10];
+            u.copy_from_slice(&v);
+            SpanSpec { neg, u }
+        })
+        .boxed()
+}
+
+pub fn span_spec() -> BoxedStrategy<SpanSpec> {
+    prop_oneof![
+        3 => span_spec_masked([true; 10]),
+        2 => span_spec_masked([true, true, true, true, false, false, false, false, false, false]),
+        2 => span_spec_masked([false, false, false, false, true, true, true, true, true, true]),
+        1 => span_spec_masked([false, false, true, true, true, true, true, true, true, true]),
+        2 => (0usize..10, any::<bool>()).prop_flat_map(|(i, neg)| unit_mag(i).prop_map(move |m| { let mut u = [0i64; 10]; u[i] = m; SpanSpec { neg, u } })),
+    ]
+    .boxed()
+}
+
+/// (secs, nanos) of a SignedDuration, biased.
+pub fn signed_duration() -> BoxedStrategy<(i64, i32)> {
+    let secs = prop_oneof![
+        3 => biased(i64::MIN, i64::MAX),
+        3 => biased(-700_000_000_000, 700_000_000_000),
+        2 => biased(-200_000, 200_000),
+    ];
+    let nanos = prop_oneof![
+        2 => Just(0i32),
+        2 => biased(-999_999_999, 999_999_999).prop_map(|v| v as i32),
+    ];
+    (secs, nanos).boxed()
+}
